@@ -854,7 +854,7 @@ func ruleMailbox(c *Ctx, rule string, names ...string) {
 					}
 					var leak *ssa.Return
 					for _, r := range returnsOf(fn) {
-						if reachesInstr(call, r) && !mustPassBetween(call, r, puts) {
+						if reachesInstr(call, r) && !mustPassBetween(call, r, viaCalls(puts)) {
 							leak = r
 						}
 					}
